@@ -1072,12 +1072,14 @@ package statedb
 //@   property C04 C11 C18 C01
 //@   flag nosafety
 //@   requires r != nil
+//@   ensures @a-committed-index-is-never-written-by-a-query onlyFresh()
 //@   atcall partList@1 requires @own-tree-own-flag-callers-key $0 == r.unique && unboxptr($1) == addr(r.tree) && $2 == key
 //@   mustcall partList@1 when @always true
 //@ func (*partIndex).prefix
 //@   property C04 C11 C18 C01
 //@   flag nosafety
 //@   requires r != nil
+//@   ensures @a-committed-index-is-never-written-by-a-query onlyFresh()
 //@   atcall partPrefix@1 requires @own-tree-own-flag-callers-key $0 == r.unique && unboxptr($1) == addr(r.tree) && $2 == ikey
 //@   mustcall partPrefix@1 when @always true
 //@ func (*partIndex).lowerBound
@@ -1095,19 +1097,19 @@ package statedb
 //@ func (*partIndexTxn).delete
 //@   property C04 C11 C03 C08
 //@   flag nosafety
-//@   requires r != nil
+//@   requires r != nil && r.tx != nil
 //@   atcall (*Txn).Delete@1 requires @own-txn-callers-key $0 == r.tx && $1 == key
 //@   mustcall (*Txn).Delete@1 when @always true
 //@ func (*partIndexTxn).insert
 //@   property C04 C11 C03 C09
 //@   flag nosafety
-//@   requires r != nil
+//@   requires r != nil && r.tx != nil
 //@   atcall (*Txn).InsertWatch@1 requires @own-txn-callers-key-and-object $0 == r.tx && $1 == key && $2.revision == obj.revision && $2.data == obj.data
 //@   mustcall (*Txn).InsertWatch@1 when @always true
 //@ func (*partIndexTxn).modify
 //@   property C04 C11 C03 C09
 //@   flag nosafety
-//@   requires r != nil
+//@   requires r != nil && r.tx != nil
 //@   atcall (*Txn).ModifyWatch@1 requires @own-txn-callers-key-and-object $0 == r.tx && $1 == key && $2.revision == obj.revision && $2.data == obj.data
 //@   mustcall (*Txn).ModifyWatch@1 when @always true
 //@ func (*partIndexTxn).notify
